@@ -29,6 +29,20 @@ use crate::error::Error;
 
 use super::{ExprType, FlagsState, GeneratorState};
 
+// A variable placed at a constant address is accessed in zero page only if the byte
+// accessed (address + offset) is still in zero page
+fn in_zeropage(v: &Variable, offset: i32) -> bool {
+    if v.memory != VariableMemory::Zeropage {
+        return false;
+    }
+    if let VariableDefinition::Value(VariableValue::Int(address)) = &v.def {
+        if v.var_const && v.var_type != VariableType::Char && v.var_type != VariableType::Short {
+            return address + offset <= 0xff;
+        }
+    }
+    true
+}
+
 impl<'a> GeneratorState<'a> {
     pub fn new(
         compiler_state: &'a CompilerState,
@@ -194,7 +208,7 @@ impl<'a> GeneratorState<'a> {
                             } else {
                                 dasm_operand = variable.to_string();
                             }
-                            if v.memory == VariableMemory::Zeropage {
+                            if in_zeropage(v, offset) {
                                 cycles += 1;
                                 nb_bytes = 2;
                             } else {
@@ -214,7 +228,7 @@ impl<'a> GeneratorState<'a> {
                             } else {
                                 dasm_operand = variable.to_string();
                             }
-                            if v.memory == VariableMemory::Zeropage {
+                            if in_zeropage(v, off) {
                                 cycles += 1;
                                 nb_bytes = 2;
                             } else {
@@ -251,7 +265,7 @@ impl<'a> GeneratorState<'a> {
                             } else {
                                 dasm_operand = variable.to_string();
                             }
-                            if v.memory == VariableMemory::Zeropage {
+                            if in_zeropage(v, off) {
                                 cycles += 1;
                                 nb_bytes = 2;
                             } else {
@@ -269,7 +283,7 @@ impl<'a> GeneratorState<'a> {
                             dasm_operand = variable.to_string();
                         }
                         cycles += 2;
-                        if v.memory == VariableMemory::Zeropage {
+                        if in_zeropage(v, off) {
                             nb_bytes = 2;
                         } else {
                             nb_bytes = 3;
